@@ -350,6 +350,8 @@ def run_shard(spec, res):
             return failing_leg(ns, res, spec, d, rng)
         if spec['kind'] == 'options':
             return options_leg(ns, res, spec, d, rng)
+        if spec['kind'] == 'bounded':
+            return bounded_leg(ns, res, spec, d, rng)
         import pandas as pd
         from ..js import bridge
         jsnode = bridge.Node.start()
@@ -553,7 +555,8 @@ def run_shard(spec, res):
 
             # 5. sqlite (always has column names, all distinct)
             if has_header and len(set(an)) == len(an) and (bn is None or len(set(bn)) == len(bn)) and all(qast.is_identifier(x) for x in list(an) + list(bn or [])):
-                db = os.path.join(d, 'db_%d.sqlite' % n)
+                # (the database file is named as people name files: blanks, #, ?, a percent sequence, non-ASCII)
+                db = os.path.join(d, ['db_%d.sqlite', 'issue #%d.sqlite', 'what?%d.db', '100%%25 sure %d.sqlite', 'my db %d.sqlite', 'd\u00e9p\u00f4t_%d.sqlite', 'a&b=%d;c.sqlite'][n % 7] % n)
                 conn = sqlite3.connect(db)
                 conn.execute('CREATE TABLE t (%s)' % ', '.join('%s TEXT' % x for x in an))
                 conn.executemany('INSERT INTO t VALUES (%s)' % ','.join('?' * len(an)), A)
@@ -877,9 +880,90 @@ def failing_leg(ns, res, spec, d, rng):
     res.sample({'leg': 'failing', 'queries': [q for q, _t in failing]})
 
 
+BOUNDED_SHAPES = [
+    'select top 2 distinct a.name', 'select distinct a.name, a.city limit 3', 'select distinct count a.name limit 2', 'select top 1 COUNT(*)', 'select MAX(a.qty), MIN(a.qty) limit 1',
+    'select top 3 a.name order by a.qty desc', 'select top 2 * where a.city != "x"', 'select top 2 a.name, b.zone join b on a.city == b.town', 'select a.city, COUNT(*) group by a.city limit 2',
+    'select top 4 distinct a.city order by a.city', 'select top 1 distinct count a.city', 'select distinct a.qty limit 1', 'select top 0 a.name', 'select top 5 a.name, UNNEST(a.name.split("n"))',
+    'select top 2 a.name where a.qty == "3"', 'select ARRAY_AGG(a.name) limit 1', 'update a.qty = "0" where NR > 2',
+]
+
+
+def bounded_leg(ns, res, spec, d, rng):
+    """Bounds (TOP / LIMIT) together with the clauses that need more than the first n input records - DISTINCT, DISTINCT COUNT, aggregates, ORDER BY, WHERE,
+    JOIN, UNNEST - through the front-ends that could be tempted to read less: sqlite (library and command line), pandas, query_csv."""
+    import pandas as pd
+    names, bnames = ['name', 'city', 'qty'], ['town', 'zone']
+    for n in range(spec['n']):
+        A = [[rng.choice(['ann', 'bob', 'cid', 'dan']), rng.choice(['rome', 'oslo', 'x']), rng.choice(['1', '2', '3', '10'])] for _ in range(rng.randrange(5, 12))]
+        if n % 2 == 0:
+            A = [list(A[0]) for _ in range(3)] + A      # duplicates up front: the first n input records hold fewer than n distinct ones
+        B = [['rome', 'south'], ['oslo', 'north'], ['rome', 'centre']]
+        for q in BOUNDED_SHAPES:
+            ref = boundary.run_query_table(ns, q, [list(r) for r in A], [list(r) for r in B], names, bnames)
+            if ref['error'] is not None:
+                res.violation('py:bounded-shape-reference-fails', '[query_table] %s failed: %s' % (q, ref['error_msg']), {'leg': 'bounded', 'query_text': q, 'A': A})
+                continue
+            exp_rows, exp_header = norm_rows(ref['rows']), ref['header']
+            case = {'leg': 'bounded', 'query_text': q, 'A': A, 'B': B}
+
+            def cmp(front, rows, header, err=None):
+                res.evaluations += 1
+                res.count('bounded_front_end:' + front)
+                if err is not None or norm_rows(rows or []) != exp_rows or (list(header) if header else None) != (list(exp_header) if exp_header else None):
+                    res.violation('py:bounded-front-end-differs:' + front, '[%s] %s over %d records -> %r / %r (error %r) ; query_table -> %r / %r' % (front, q, len(A), header, norm_rows(rows or []), err, exp_header, exp_rows), dict(case, front_end=front))
+            db = os.path.join(d, 'bounded #%d.sqlite' % n)
+            conn = sqlite3.connect(db)
+            conn.execute('CREATE TABLE t (name TEXT, city TEXT, qty TEXT)')
+            conn.executemany('INSERT INTO t VALUES (?, ?, ?)', A)
+            conn.execute('CREATE TABLE b (town TEXT, zone TEXT)')
+            conn.executemany('INSERT INTO b VALUES (?, ?)', B)
+            conn.commit()
+            outp = os.path.join(d, 'bounded_out.csv')
+            rows = hdr = err = None
+            try:
+                ns.sqlite.query_sqlite_to_csv(q, conn, 't', outp, ',', 'quoted', 'utf-8', [])
+                with open(outp, 'rb') as f:
+                    rows, hdr = parse_out(f.read(), ',', 'quoted', bool(exp_header))
+            except Exception as e:
+                err = '%s: %s' % (util.error_class(e), str(e)[:100])
+            conn.close()
+            cmp('sqlite', rows, hdr, err)
+            if n % 3 == 0:
+                p = run_cli(['sqlite', db, '--input', 't', '--query', q, '--out-format', 'csv'], d)
+                if p.returncode != 0:
+                    cmp('cli-sqlite', None, None, 'exit %d: %r' % (p.returncode, p.stderr[-120:]))
+                else:
+                    rows, hdr = parse_out(p.stdout, ',', 'quoted_rfc', bool(exp_header))
+                    cmp('cli-sqlite', rows, hdr)
+            os.unlink(db)
+            rows = hdr = err = None
+            try:
+                out = ns.rbql.query_pandas_dataframe(q, pd.DataFrame(A, columns=names), [], pd.DataFrame(B, columns=bnames))
+                rows, hdr = out.values.tolist(), [str(c) for c in out.columns]
+            except Exception as e:
+                err = '%s: %s' % (util.error_class(e), str(e)[:100])
+            if exp_rows or err is not None:
+                cmp('pandas', rows, hdr if exp_header else None, err)
+            inp = os.path.join(d, 'bounded_in.csv')
+            with open(inp, 'w', encoding='utf-8', newline='') as f:
+                f.write(csv_text(A, names))
+            with open(os.path.join(d, 'b'), 'w', encoding='utf-8', newline='') as f:
+                f.write(csv_text(B, bnames))
+            rows = hdr = err = None
+            try:
+                ns.rbql.query_csv(q, inp, ',', 'quoted', outp, ',', 'quoted', 'utf-8', [], True)
+                with open(outp, 'rb') as f:
+                    rows, hdr = parse_out(f.read(), ',', 'quoted', bool(exp_header))
+            except Exception as e:
+                err = '%s: %s' % (util.error_class(e), str(e)[:100])
+            cmp('query_csv', rows, hdr, err)
+    res.sample({'leg': 'bounded', 'shapes': BOUNDED_SHAPES[:5]})
+
+
 def plan(tier, seed):
     k = NSHARDS[tier]
     specs = [{'kind': 'cases', 'k': k, 'i': i, 'n': max(1, CASES[tier] // k)} for i in range(k)]
+    specs += [{'kind': 'bounded', 'k': 1, 'i': 2000 + i, 'n': 3 if tier == 'quick' else 30} for i in range(2)]
     specs.append({'kind': 'failing', 'k': 1, 'i': 0})
     ko = {'quick': 4, 'thorough': 8}[tier]
     specs += [{'kind': 'options', 'k': ko, 'i': i + 1000, 'n': {'quick': 40, 'thorough': 300}[tier]} for i in range(ko)]
@@ -889,8 +973,8 @@ def plan(tier, seed):
 def summarize(tier, seed, m):
     fe = {k[10:]: v for k, v in m['counters'].items() if k.startswith('front_end:')}
     return {
-        'rule': 'rectangular string tables (0-5 rows, 1-4 columns, cells with spaces, quotes, commas, non-ASCII, empty; one case in six with line breaks inside cells, run through the quoted_rfc dialect; duplicated column names in 15% of the headed cases; one case in five (quoted policies) written the way a spreadsheet exports it - a UTF-8 byte order mark and every field quoted; one case in eleven with records shorter or longer than the first, run through the front-ends that can hold such a table; no tabs) with and without header; type-agnostic structured queries (select / where / order / distinct / distinct count / top / inner join / update / except / aggregates) rotating systematically over clause combinations; a case whose reference run fails (runtime errors, and a column referred to as a.NAME where the header says name - one headed case in thirteen) must fail through every entry point as well; each executed through query_table (reference) and through 8 entry points: rbql.query with user-written iterator / writer / registry classes, query_csv, CLI file -> file and stdin -> stdout in the three output formats, query_pandas_dataframe, query_sqlite_to_csv, CLI sqlite (with --input, and without it when the database holds one table); every second language-neutral case also through the entry points of the JS package - query_table over arrays as its reference, query_csv (stream and bulk reading) and the node command line (file -> file, file -> stdout) over the same files: same table and header, exit 0, nothing but the table on stdout; plus failing queries (parsing, execution, IO, syntax) x {file, stdout, sqlite} for exit status / Error [type] on stderr, and warning routing; plus an options leg over the parameters of the CSV entry points, each compared with query_table over the same data: comment lines (8 prefixes, before the header, between records, at the end, in the join file too) with comment_prefix / --comment-prefix, user variables and functions from an init source (user_init_code, --init-source-file, ~/.rbql_init_source.py under a private HOME; CLI sqlite too), latin-1 files with cells over the whole 0x80-0xff range and --encoding latin-1, a caller flag that says the opposite of what the files are, put right by WITH (header) / WITH (noheader) in the query, and the policy the command line picks when --policy is left out (quoted for , and ; / whitespace for a space / simple otherwise) with a cell whose CSV form depends on the policy. distinct_nontrivial = distinct (query, tables) with a non-empty result + failing scenarios.',
-        'required': ['cases', 'bom_quote_all_cases', 'multiline_cases', 'ragged_cases', 'failing_reference_cases', 'miscased_column_reference_cases', 'failing_reference_front_end:sqlite', 'failing_reference_front_end:pandas', 'failing_reference_front_end:query_csv', 'front_end:query+user-classes', 'front_end:query_csv', 'front_end:pandas', 'front_end:sqlite', 'front_end:cli-sqlite', 'cli_sqlite_default_table_runs', 'js_entry_point_cases', 'front_end:js-query_csv-stream', 'front_end:js-query_csv-bulk', 'front_end:js-cli-file', 'front_end:js-cli-stdout', 'front_end:cli-file-tsv', 'front_end:cli-file-csv', 'front_end:cli-file-input', 'front_end:cli-stdin-stdout-csv', 'cli_failing_runs', 'cli_usage_error_runs', 'cli_failing_runs_empty_message', 'cli_warning_runs', 'option_cases:comment', 'option_cases:init', 'option_cases:latin1', 'option_cases:defpolicy', 'option_cases:withmod', 'front_end:cli-file+comment', 'front_end:cli-stdin+init', 'front_end:cli-sqlite+init', 'front_end:query_csv+latin1', 'front_end:cli-file+defpolicy'],
+        'rule': 'rectangular string tables (0-5 rows, 1-4 columns, cells with spaces, quotes, commas, non-ASCII, empty; one case in six with line breaks inside cells, run through the quoted_rfc dialect; duplicated column names in 15% of the headed cases; one case in five (quoted policies) written the way a spreadsheet exports it - a UTF-8 byte order mark and every field quoted; one case in eleven with records shorter or longer than the first, run through the front-ends that can hold such a table; no tabs) with and without header; type-agnostic structured queries (select / where / order / distinct / distinct count / top / inner join / update / except / aggregates) rotating systematically over clause combinations; a case whose reference run fails (runtime errors, and a column referred to as a.NAME where the header says name - one headed case in thirteen) must fail through every entry point as well; each executed through query_table (reference) and through 8 entry points: rbql.query with user-written iterator / writer / registry classes, query_csv, CLI file -> file and stdin -> stdout in the three output formats, query_pandas_dataframe, query_sqlite_to_csv, CLI sqlite (with --input, and without it when the database holds one table); every second language-neutral case also through the entry points of the JS package - query_table over arrays as its reference, query_csv (stream and bulk reading) and the node command line (file -> file, file -> stdout) over the same files: same table and header, exit 0, nothing but the table on stdout; plus a bounded-shapes leg: 17 queries combining TOP / LIMIT with DISTINCT, DISTINCT COUNT, aggregates, ORDER BY, WHERE, JOIN and UNNEST over tables of 5-14 records (duplicates up front) through sqlite (library and command line), pandas and query_csv against query_table; plus failing queries (parsing, execution, IO, syntax) x {file, stdout, sqlite} for exit status / Error [type] on stderr, and warning routing; plus an options leg over the parameters of the CSV entry points, each compared with query_table over the same data: comment lines (8 prefixes, before the header, between records, at the end, in the join file too) with comment_prefix / --comment-prefix, user variables and functions from an init source (user_init_code, --init-source-file, ~/.rbql_init_source.py under a private HOME; CLI sqlite too), latin-1 files with cells over the whole 0x80-0xff range and --encoding latin-1, a caller flag that says the opposite of what the files are, put right by WITH (header) / WITH (noheader) in the query, and the policy the command line picks when --policy is left out (quoted for , and ; / whitespace for a space / simple otherwise) with a cell whose CSV form depends on the policy. distinct_nontrivial = distinct (query, tables) with a non-empty result + failing scenarios.',
+        'required': ['cases', 'bounded_front_end:sqlite', 'bounded_front_end:cli-sqlite', 'bounded_front_end:pandas', 'bounded_front_end:query_csv', 'bom_quote_all_cases', 'multiline_cases', 'ragged_cases', 'failing_reference_cases', 'miscased_column_reference_cases', 'failing_reference_front_end:sqlite', 'failing_reference_front_end:pandas', 'failing_reference_front_end:query_csv', 'front_end:query+user-classes', 'front_end:query_csv', 'front_end:pandas', 'front_end:sqlite', 'front_end:cli-sqlite', 'cli_sqlite_default_table_runs', 'js_entry_point_cases', 'front_end:js-query_csv-stream', 'front_end:js-query_csv-bulk', 'front_end:js-cli-file', 'front_end:js-cli-stdout', 'front_end:cli-file-tsv', 'front_end:cli-file-csv', 'front_end:cli-file-input', 'front_end:cli-stdin-stdout-csv', 'cli_failing_runs', 'cli_usage_error_runs', 'cli_failing_runs_empty_message', 'cli_warning_runs', 'option_cases:comment', 'option_cases:init', 'option_cases:latin1', 'option_cases:defpolicy', 'option_cases:withmod', 'front_end:cli-file+comment', 'front_end:cli-stdin+init', 'front_end:cli-sqlite+init', 'front_end:query_csv+latin1', 'front_end:cli-file+defpolicy'],
         'extra': {'front_end_comparisons': fe},
         'assumptions': ['query_table is the reference (pinned by C01-C05, C07)', 'types are not compared across back ends (CSV and pandas stringify): cells are compared after the stringification every CSV sink applies', 'scratch files are named in.csv / jn.csv / in_<n>.csv / jn_<n>.csv in a directory c<n> per case: a path containing an a./b. token under a header is the C08 known finding, not a front-end difference'],
     }
